@@ -140,6 +140,19 @@ def model_universe(name, thorough=False):
     for k in params if thorough else params[:1]:
         v = base[k]
         settable[k] = alt(v, 0.25 * torch.ones_like(v))
+    # re-assignment of a weighted data variable whose *mask* changes only where the stored number is 0:
+    # the two alternatives have the same weighted values and differ by their weights only
+    from leaspy.utils.weighted_tensor import WeightedTensor
+
+    y = base.get("y")
+    if isinstance(y, WeightedTensor) and y.weight is not None:
+        w = y.weight.clone()
+        pos = tuple(int(i) for i in torch.nonzero(w.to(torch.bool))[0])
+        val = y.value.clone()
+        val[pos] = 0.0
+        w_off = w.clone()
+        w_off[pos] = 0
+        settable["y"] = [WeightedTensor(val, w), WeightedTensor(val.clone(), w_off)]
     observed = None if thorough else None
     u = statemc.Universe(dag, settable, put_values, 2, observed=observed, put_indices=put_indices, base=base)
     return u
@@ -199,7 +212,7 @@ def _menu_kwargs(shard):
         if shard.get("thorough"):
             return dict(accumulate=True, clones=True, ctx=True)
         return dict(accumulate=False, clones=True, modes=(None, "REF"), masks=[[1, 0], [0, 1]], ctx=False,
-                    reads=["model", "nll_attach_ind", "nll_attach", "nll_regul_ind_sum_ind", "rt"])
+                    reads=["model", "nll_attach_ind", "nll_attach", "nll_regul_ind_sum_ind", "rt", "n_obs", "n_obs_per_ft"])
     return dict(accumulate=shard.get("accumulate", False), puts=shard.get("puts", True), clones=True,
                 ctx=shard.get("depth") is not None)
 
